@@ -5,6 +5,10 @@ from vlib import world as W
 # a directory entry, never a pattern
 NAMES = ["svc", "svc1", "svc10", "svc-a", "app", "app2", "a", "ab", "b", "db", "x", "app\\x2dhog.service", "w[1]", "s*r", "q?z"]
 GLOBCHARS = set("\\*?[]{}")
+# a mark is the presence of the attribute, whatever its value (`setfattr -n trusted.oomd_prefer <cgroup>` sets an empty one)
+MARK_VALUES = ["1", "1", "1", "", "0", "true"]
+# what a name with glob metacharacters matches when it is read as a pattern
+DECOY = {"s*r": "svcr", "q?z": "qaz", "w[1]": "w1", "app\\x2dhog.service": "appx2dhog.service"}
 HDD = [1.31e-3, 1.13e-7, 2.58e-1, 5.04e-7, 0, 0]
 SSD = [1.21e-2, 6.25e-7, 1.07e-3, 2.61e-7, 2.37e-2, 9.10e-10]
 PLUGINS = ["kill_by_memory_size_or_growth", "kill_by_swap_usage", "kill_by_pressure", "kill_by_io_cost", "kill_by_pg_scan"]
@@ -68,14 +72,14 @@ def gen_tree(rng, base="wl", depth=3, fan=4, big=False, tie=False, pidcounts=(0,
             x = rng.random()
             xa = {}
             if x < 0.3:
-                xa[rng.choice(["trusted.oomd_prefer", "user.oomd_prefer"])] = "1"
+                xa[rng.choice(["trusted.oomd_prefer", "user.oomd_prefer"])] = rng.choice(MARK_VALUES)
             elif x < 0.6:
-                xa[rng.choice(["trusted.oomd_avoid", "user.oomd_avoid"])] = "1"
+                xa[rng.choice(["trusted.oomd_avoid", "user.oomd_avoid"])] = rng.choice(MARK_VALUES)
             else:
                 # any combination of the four marks (prefer wins over avoid whatever the namespace)
                 for name in ("trusted.oomd_prefer", "user.oomd_prefer", "trusted.oomd_avoid", "user.oomd_avoid"):
                     if rng.random() < 0.5:
-                        xa[name] = "1"
+                        xa[name] = rng.choice(MARK_VALUES)
             spec["xattrs"] = xa
         if rng.random() < oomgroup_p:
             spec["files"]["memory.oom.group"] = "1\n"
@@ -83,7 +87,11 @@ def gen_tree(rng, base="wl", depth=3, fan=4, big=False, tie=False, pidcounts=(0,
         info[rel] = {"pids": mypids, "children": []}
         if d < depth:
             n = rng.randint(0, fan) if d > 0 else rng.randint(2, fan + 1)
-            for nm in rng.sample(NAMES, min(n, len(NAMES))):
+            picked = rng.sample(NAMES, min(n, len(NAMES)))
+            for nm in list(picked):
+                if nm in DECOY and rng.random() < 0.6:
+                    picked.append(DECOY[nm])
+            for nm in picked:
                 c = rel + "/" + nm
                 info[rel]["children"].append(c)
                 add(c, d + 1)
@@ -165,7 +173,9 @@ def kill_args(rng, plugin, patterns, recursive=None, dry=False, **force):
 
 def patterns_for(rng, info, base="wl"):
     # a literal pattern naming a child whose name has glob metacharacters would not mean that child
-    kids = [k for k in info[base]["children"] if not (set(k) & GLOBCHARS)]
+    # (a child named `w[1]` may well be named as a pattern - it then means `w1`, not itself; only the backslash is left out,
+    # the reference matcher does not model glob's escaping)
+    kids = [k for k in info[base]["children"] if "\\" not in k]
     choice = rng.random()
     if choice < 0.3 or not kids:
         return [base + "/*"]
@@ -182,9 +192,12 @@ def patterns_for(rng, info, base="wl"):
     return [base + "/*/*"]
 
 
-def kill_config(plugin, args, ruleset_extra=None, hooks=None, det_ids=("d",)):
-    rs = {"name": "rk", "post_action_delay": "0",
-          "detectors": [["g"] + [W.det(i) for i in det_ids]],
+LONG_RS, LONG_GROUP = "rk-" + "r" * 470, "g-" + "d" * 470  # a kill record well beyond the 992 bytes /dev/kmsg takes
+
+
+def kill_config(plugin, args, ruleset_extra=None, hooks=None, det_ids=("d",), rs_name="rk", group="g"):
+    rs = {"name": rs_name, "post_action_delay": "0",
+          "detectors": [[group] + [W.det(i) for i in det_ids]],
           "actions": [W.act("pre"), {"name": plugin, "args": args}, W.act("post")]}
     if ruleset_extra:
         rs.update(ruleset_extra)
